@@ -718,7 +718,10 @@ class SMCSamples(BaseSamples):
         if self.xp.isnan(log_w).any():
             raise ValueError(f"Log weights contain NaN values for beta={beta}")
         log_evidence_ratio = logsumexp(log_w) - math.log(len(self.x))
-        return log_w + log_evidence_ratio
+        # Normalised so that the mean weight is one: subtracting brings the
+        # values near zero (adding doubled their magnitude and, in float32,
+        # cost the weights their resolution)
+        return log_w - log_evidence_ratio
 
     def resample(
         self,
